@@ -9,6 +9,6 @@ func init() {
 			Calls:  []string{"enableKubeEventCb", "RangeValue", "Store", "Load"}},
 		skelTarget{Name: "monitor.CreateInformers", File: mo, Recv: "monitor", Func: "CreateInformers",
 			Fields: []string{"eventsEnabled", "VaryingInformers"},
-			Calls:  []string{"enableKubeEventCb", "CreateInformersForNamespace", "Store", "Load", "Delete", "start"}},
+			Calls:  []string{"enableKubeEventCb", "CreateInformersForNamespace", "createInformersForNamespace", "Store", "Load", "Delete", "start"}},
 	)
 }
